@@ -1,6 +1,19 @@
-From Tabula Require Import model.C13_Split.
+From Tabula Require Import model.C13_Split model.C13_Overlap.
 Open Scope Z_scope.
-(* case: (0 unit max p q xTEXT)   unit 0 = characters, 1 = tokens (ratio p/q)
+(* the sentence-end oracle as a table: (string, one byte per rune: 1 = ends a sentence) *)
+Fixpoint table_lookup (tbl : list val) (s : bytes) : option (list bool) :=
+  match tbl with
+  | [] => None
+  | VL [VB k; VB bits] :: r => if bytes_eqb k s then Some (map (fun b => N.eqb b 1) bits) else table_lookup r s
+  | _ :: r => table_lookup r s
+  end.
+
+Definition ocfg_of (st sz mn mx pw : Z) : ocfg :=
+  {| o_strategy := st; o_size := sz; o_min := mn; o_max := mx; o_pw := negb (pw =? 0) |}.
+
+(* case: (2 strategy size min max pw xTEXT table) overlap of one text
+         (3 strategy size min max pw (xTEXT ...) table) overlap along a chunk sequence
+         (0 unit max p q xTEXT)   unit 0 = characters, 1 = tokens (ratio p/q)
          (1 xTEXT) trim_space *)
 Definition run_C13 (v : val) : val :=
   match val_l v with
@@ -11,5 +24,15 @@ Definition run_C13 (v : val) : val :=
                                 (limit_tokens m (Z.to_nat p) (Z.to_nat q)) t in
     val_of_res (fun l => VL (map VB l)) r
   | [VI 1; VB t] => VB (trim_space t)
+  | [VI 2; VI st; VI sz; VI mn; VI mx; VI pw; VB t; VL tbl] =>
+    match generate (table_lookup tbl) (ocfg_of st sz mn mx pw) t with
+    | Some o => VB o
+    | None => VI (-2)
+    end
+  | [VI 3; VI st; VI sz; VI mn; VI mx; VI pw; VL ts; VL tbl] =>
+    match apply_chunks (table_lookup tbl) (ocfg_of st sz mn mx pw) None (map val_b ts) with
+    | Some l => VL (map (fun p => VL [VB (fst p); VB (snd p)]) l)
+    | None => VI (-2)
+    end
   | _ => bad_case
   end.
